@@ -221,6 +221,69 @@ def profStr (g : Game Float) (a b : Strat Float) : String :=
 def outStr (g : Game Float) (o : SolveOut Float) : String :=
   s!"ok {o.iters} {extStr o.regOne} {extStr o.regTwo} {profStr g o.stratOne o.stratTwo} L {logStr o.log}"
 
+/-! ## conditioning: the smallest relative margin by which a discontinuous decision was taken
+
+Diagnostic only (used by the harness to tell a rounding-induced tie flip from a disagreement);
+not part of the model. -/
+
+def fInf : Float := 1.0 / 0.0
+
+def regMargin (noPos : Ext Float) (v : List Float) : Float :=
+  let s := v.foldl (fun a x => if a < x.abs then x.abs else a) 0.0
+  if s == 0.0 then fInf else
+  let m1 := (v.filter (· != 0.0)).foldl (fun a x => if x.abs / s < a then x.abs / s else a) fInf
+  let pos := v.any (fun x => 0.0 < x)
+  let gapTop (w : List Float) : Float :=
+    match (w.toArray.qsort (fun a b => a > b)).toList with
+    | a :: b :: _ => if a == 0.0 && b == 0.0 then fInf else (a - b) / s
+    | _ => fInf
+  let m2 := if pos then fInf else
+    match noPos with
+    | .posInf => gapTop v
+    | .negInf => gapTop (v.map (fun x => -x))
+    | .fin _ => fInf
+  if m1 < m2 then m1 else m2
+
+def stMargin (noPos : Ext Float) (l : List (InfoSt Float)) : Float :=
+  l.foldl (fun a x => let m := regMargin noPos x.cumRegret; if m < a then m else a) fInf
+
+def thrMargin (r1 r2 : Float) : Option (Ext Float) → Float
+  | some (.fin t) =>
+    let b := if r1 < r2 then r2 else r1
+    let sc := if b.abs < t.abs then t.abs else b.abs
+    if sc == 0.0 then fInf else (b - t).abs / sc
+  | _ => fInf
+
+def fmin2 (a b : Float) : Float := if b < a then b else a
+
+partial def marginsVanilla (g : Game Float) (sampled : Bool) (p : RegretParams Float)
+    (draw : DrawFn Float) (thr : Option (Ext Float)) (n it : Nat) (s : SolveSt Float) (m : Float) : Float :=
+  if n == 0 then m else
+  let c : VCtx Float := ⟨g.chance, sampled, s.strat, draw, it - 1⟩
+  let (_, es, _) := vrec c g.root 1 1 1 {}
+  let s := s.applyEffs es
+  let m := fmin2 m (fmin2 (stMargin p.noPositive s.one) (stMargin p.noPositive s.two))
+  let (one, r1) := advanceAll p it it s.one 0
+  let (two, r2) := advanceAll p it it s.two 0
+  let m := fmin2 m (thrMargin r1 r2 thr)
+  if belowThreshold r1 r2 thr then m else marginsVanilla g sampled p draw thr (n - 1) (it + 1) ⟨one, two⟩ m
+
+partial def marginsExternal (g : Game Float) (p : RegretParams Float)
+    (draw : DrawFn Float) (thr : Option (Ext Float)) (n it : Nat) (s : SolveSt Float) (m : Float) : Float :=
+  if n == 0 then m else
+  let pass (first : Bool) (s : SolveSt Float) (m : Float) : SolveSt Float × Float × Float :=
+    let c : ECtx Float :=
+      ⟨g.chance, first, s.strat, draw, 2 * (it - 1) + (if first then 0 else 1), if first then it - 1 else it⟩
+    let (_, es, _) := erec c g.root {}
+    let s := s.applyEffs es
+    let m := fmin2 m (stMargin p.noPositive (s.get first))
+    let (xs, r) := advanceAll p it (if first then it - 1 else it) (s.get first) 0
+    (s.set first xs, r, m)
+  let (s, r1, m) := pass true s m
+  let (s, r2, m) := pass false s m
+  let m := fmin2 m (thrMargin r1 r2 thr)
+  if belowThreshold r1 r2 thr then m else marginsExternal g p draw thr (n - 1) (it + 1) s m
+
 /-! ## commands -/
 
 def withGame (k : Game Float → P String) : P String := do
@@ -319,6 +382,17 @@ def cmd : P String := do
         else if m == "E" then pure (outStr g (solveExternalMulti g p draw T thr target))
         else throw s!"bad method {m}"
       else throw s!"bad mode {mode}"
+  else if c == "margins" then
+    withGame fun g => do
+      let m ← tok
+      let p ← pParams
+      let T ← pNat
+      let thr ← pThr
+      let seed ← pNat
+      let draw := drawHash seed.toUInt64
+      let s0 : SolveSt Float := SolveSt.init g
+      if m == "E" then pure s!"ok {fHex (marginsExternal g p draw thr T 1 s0 fInf)}"
+      else pure s!"ok {fHex (marginsVanilla g (m == "S") p draw thr T 1 s0 fInf)}"
   else if c == "presets" then
     let ps : List (RegretParams Float) :=
       [RegretParams.vanilla, RegretParams.lcfr, RegretParams.cfrPlus, RegretParams.dcfr,
